@@ -4,7 +4,7 @@ From TS Require Import Model.Str Model.Outcome Model.Unicode Model.Types Model.P
                        Model.Lang.TypeScript Model.Lang.Kotlin Model.Lang.Scala Model.Lang.Go Spec.C09Spec.
 From TS Require Import Model.Lang.Swift Model.Lang.Python.
 From TS Require Proofs.C09Common Proofs.C09Recon Proofs.C09Refs Proofs.C09_KotlinFile Proofs.C09Witness Proofs.C09Final.
-From TS Require Proofs.C09_TypeScript Proofs.C09_Scala Proofs.C09_Python Proofs.C09_Swift.
+From TS Require Proofs.C09_TypeScript Proofs.C09_Scala Proofs.C09_Python Proofs.C09_Swift Proofs.C09_Go.
 Import ListNotations.
 
 (* the program the back ends receive in single-file mode is Proofs.C09Recon.c09_reconciled of the parsed one *)
@@ -152,6 +152,33 @@ Theorem C09_no_rename_Swift :
       good_C09 Swift (sw_prefix cfg) pd (c09_observe Swift fd) = true.
 Proof. exact Proofs.C09Final.c09_no_rename_swift. Qed.
 Print Assumptions C09_no_rename_Swift.
+
+(* Go, every program, package and type-mapping configuration WITH AN EMPTY uppercase_acronyms LIST: outside
+   the recorded classes every name spelled in a type position (field types, variant content types, alias
+   targets, const types, the ...Inner helper struct, generic arguments) is a generic parameter of the item
+   it stands in or exactly the name a generated definition is declared under.
+   PARTIAL: with a non-empty acronym list acronyms_to_uppercase rewrites definition names and member /
+   payload types on the printed text (go.rs:579, byte/char arithmetic) but not alias targets and const
+   types; that configuration is judged by the correspondence check on every run (class
+   C09-go-acronym-target), not by a theorem. *)
+Theorem C09_Go_partial :
+  forall (uc : unicode) (cfg : go_config) (pd : parsed),
+    go_uppercase_acronyms cfg = [] ->
+    dom_C09 Go [] pd = true -> known_C09 Go [] (go_uppercase_acronyms cfg) pd = None ->
+    forall fd : file_decls, go_file_decls uc cfg (Proofs.C09Recon.c09_reconciled pd) = Ok fd ->
+      good_C09 Go [] pd (c09_observe Go fd) = true.
+Proof. exact Proofs.C09_Go.c09_go_no_acronyms. Qed.
+Print Assumptions C09_Go_partial.
+
+Theorem C09_no_rename_Go_partial :
+  forall (uc : unicode) (cfg : go_config) (pd : parsed),
+    go_uppercase_acronyms cfg = [] ->
+    dom_C09 Go [] pd = true ->
+    (forall e, In e (c09_entities pd) -> c09_renamed_away (c9e_id e) = false) ->
+    forall fd : file_decls, go_file_decls uc cfg (Proofs.C09Recon.c09_reconciled pd) = Ok fd ->
+      good_C09 Go [] pd (c09_observe Go fd) = true.
+Proof. exact Proofs.C09Final.c09_no_rename_go_no_acronyms. Qed.
+Print Assumptions C09_no_rename_Go_partial.
 
 (* nothing renamed => no recorded class applies, all languages (with an empty Go acronym list) *)
 Theorem C09_no_rename_no_class :
